@@ -210,7 +210,14 @@ def main():
                     nontrivial.add(t)
                 if "asis" in kv:
                     fidelity[kv["asis"]] += 1
-                if verdict == "pass":
+                if verdict in ("hang", "noverdict", "noanswer") or verdict.startswith("crash"):
+                    # the ORACLE did not finish this case within its budget (even alone with three times the budget) or
+                    # died on it: that says nothing about the implementation - undecided, counted and listed, never an alarm
+                    stats["undecided"] += 1
+                    hist["oracle-undecided:" + verdict.split()[0]] += 1
+                    if len(notes) < 20:
+                        notes.append("oracle gave no verdict (%s) on: %s" % (verdict, t[:200]))
+                elif verdict == "pass":
                     stats["pass"] += 1
                 elif verdict.startswith("known:"):
                     tag = verdict[6:]
